@@ -5,7 +5,7 @@
    [Panic] is any Rust panic (slice bounds, expect, debug assertion), [OutOfFuel] a non-terminating loop. *)
 From GixV.Base Require Import Bytes BytesFacts Outcome.
 From Coq Require Import Lia.
-From GixV.C29 Require Import Tables Model Proofs ProofsCodec ProofsReader ProofsSideband ProofsLines ProofsDemux.
+From GixV.C29 Require Import Tables Model Proofs ProofsCodec ProofsReader ProofsSideband ProofsLines ProofsDemux ProofsRead.
 Local Open Scope N_scope.
 
 (* ---- length prefixes --------------------------------------------------------------------------- *)
@@ -206,6 +206,21 @@ Theorem read_is_fill_buf_prefix : forall fuel sb size,
        Ok (inl (firstn (N.to_nat (N.min (len rem) size)) rem), consume sb' (N.min (len rem) size))
    end)%outcome.
 Proof. exact L_read_is_fill_buf_prefix. Qed.
+
+(* ... and through Read::read itself: calling read() in a loop, the k-th call with a buffer of [sz k] >= 1
+   bytes — ANY sequence of buffer sizes — until it returns Ok(0), delivers exactly the concatenation of the
+   band-1 payloads; the handler log, the stop at the delimiter and the position of the underlying reader
+   are as above.  [n] need only exceed [bound items] = data bytes + lines + 1. *)
+Theorem sideband_read_delivers_data_concatenated : forall (sz : nat -> N), (forall k, 1 <= sz k) ->
+  forall ds f dl rest, valid dl -> find_line ds dl = Some dl ->
+  forall n0 items it h fuel pos0 cap0 n k, (length items < n0)%nat -> (bound items <= n)%nat ->
+  (length items < fuel)%nat -> ready it ds f -> good_h h -> cap0 <= pos0 ->
+  Forall (fun i => passes ds f (item_line i)) items -> concat (rd it) = stream_of items dl rest ->
+  exists sb', read_all sz n k fuel {| parent := it; hnd := h; pos := pos0; cap := cap0 |}
+              = Ok (concat (data_of items), None, sb') /\
+    log (hnd sb') = rev (progress_of items) ++ log h /\
+    stopped_at (parent sb') = Some dl /\ concat (rd (parent sb')) = rest.
+Proof. exact L_read_all_content. Qed.
 
 (* the hypotheses are satisfiable, and the statement computes what one expects *)
 Example demux_example :
